@@ -155,7 +155,12 @@ func e2eRun(c *Ctx, seed int64, spec *e2eSpec, dir string) *e2eOutcome {
 			ob.SrcMD5 = md5hex(b)
 			ob.StillThere = true
 		}
+		// Store.Remove releases the bytes that are on disk right now; Cache.Done
+		// releases the version the cache entry describes
 		h := ob.SrcMD5
+		if viaDone && cacheHash != "" {
+			h = cacheHash
+		}
 		if h == "" {
 			h = cacheHash
 		}
@@ -207,6 +212,7 @@ func e2eRun(c *Ctx, seed int64, spec *e2eSpec, dir string) *e2eOutcome {
 		out.mutationsHit++
 		disrupt()
 	}
+	var pendingMut []mutation
 	w.onAction = func(kind string) {
 		mu.Lock()
 		actions++
@@ -214,8 +220,13 @@ func e2eRun(c *Ctx, seed int64, spec *e2eSpec, dir string) *e2eOutcome {
 		var todo []mutation
 		for _, m := range spec.Mutations {
 			if m.AtAction == n {
-				todo = append(todo, m)
+				pendingMut = append(pendingMut, m)
 			}
+		}
+		// never between the sender's last look at a file and its removal: no
+		// file-system interface lets a program close that window
+		if kind != "store:remove" && kind != "cache:done" {
+			todo, pendingMut = pendingMut, nil
 		}
 		crash := false
 		for _, k := range spec.SenderCrashAt {
@@ -341,9 +352,12 @@ func e2eRun(c *Ctx, seed int64, spec *e2eSpec, dir string) *e2eOutcome {
 	out.sources = w.sourceFiles()
 	out.cache = w.cacheOnDisk()
 	out.delivered = append(w.allDelivered(), w.recv.Disp.Events()...)
-	w.regMu.Lock()
-	out.logged = append(append([]loggedRec(nil), w.oldLogged...), w.recv.Log.Recs()...)
-	w.regMu.Unlock()
+	// the receive log as it is on disk (the wrapper's own records miss a line
+	// written just before a crash parked the writer)
+	w.recv.Log.inner.Parse(func(name, renamed, hash string, size int64, t time.Time) bool {
+		out.logged = append(out.logged, loggedRec{Name: name, Renamed: renamed, Hash: hash, Size: size, At: t})
+		return false
+	}, time.Now().Add(-40*24*time.Hour), time.Now().Add(24*time.Hour))
 	out.reqs = w.requests()
 	out.events = w.log.snapshot()
 	return out
@@ -423,12 +437,56 @@ func oracleRelease(o *e2eOutcome, v vfn) {
 			if !r.ViaDone {
 				fp = "delete-without-validated-copy"
 			}
-			v("C02", "validated-copy-exists-at-release", fp, fmt.Sprintf("%s of %s at %s (sender generation %d): source content md5 %s, but the receiver holds no validated copy of it (final: %v, waiting: %v)", what, r.Name, r.VT, r.Gen, r.SrcMD5, r.HeldFinal, r.HeldWait))
+			// known pattern: a restarted sender polls by NAME for a version it never
+			// transmitted, and the receiver answers for an older version of that name
+			relHash := r.SrcMD5
+			if r.ViaDone && r.CacheHash != "" {
+				relHash = r.CacheHash
+			}
+			if r.Gen >= 2 && !everTransmitted(o, r.Name, relHash) && otherVersionHeld(o, r.Name, relHash) {
+				fp = "released-after-restart-on-name-only-poll"
+			}
+			v("C02", "validated-copy-exists-at-release", fp, fmt.Sprintf("%s of %s at %s (sender generation %d): content on disk md5 %s, cache entry hash %s, but the receiver holds no validated copy of the released version (final: %v, waiting: %v)", what, r.Name, r.VT, r.Gen, r.SrcMD5, r.CacheHash, r.HeldFinal, r.HeldWait))
 		}
 		if !r.PosPoll {
 			v("C02", "positive-poll-before-release", "release-without-positive-poll", fmt.Sprintf("%s of %s at %s: no positive poll answer was ever given for that name", what, r.Name, r.VT))
 		}
 	}
+}
+
+// everTransmitted: did the receiver ever acknowledge every byte of (name, hash)?
+func everTransmitted(o *e2eOutcome, name, hash string) bool {
+	var rs []iv
+	var size int64 = -1
+	for _, q := range o.reqs {
+		if q.Class != "data" {
+			continue
+		}
+		for pi, p := range q.Parts {
+			if p.Name == name && p.Hash == hash {
+				size = p.Size
+				if pi < len(q.Acked) && q.Acked[pi] {
+					rs = append(rs, iv{p.Beg, p.End})
+				}
+			}
+		}
+	}
+	return size >= 0 && covered(rs) >= size
+}
+
+// otherVersionHeld: the receiver delivered / logged another version of that name
+func otherVersionHeld(o *e2eOutcome, name, hash string) bool {
+	for _, d := range o.delivered {
+		if d.Rel == targetName(o.w, name) && d.MD5 != hash {
+			return true
+		}
+	}
+	for _, l := range o.logged {
+		if l.Name == name && l.Hash != hash {
+			return true
+		}
+	}
+	return false
 }
 
 // oracleProgress (C03): bounded progress after the last disruption
